@@ -524,8 +524,42 @@ fn ac_run(a: &[&str]) -> String {
     }
 }
 
+/// cm_time <stored_milli> <stored_minute> <new_milli>: check_non_decreasing_and_update_timestamps over the MockApi
+/// field store; prints `ok|err <milli after> <minute after> <number of field writes>`
+fn cm_time(a: &[&str]) -> String {
+    use radix_engine::blueprints::consensus_manager::*;
+    let mut api = mock_api::MockApi::default();
+    let milli = ProposerMilliTimestampSubstate { epoch_milli: a[0].parse().unwrap() };
+    let minute = ProposerMinuteTimestampSubstate { epoch_minute: a[1].parse().unwrap() };
+    api.fields.insert(
+        ConsensusManagerField::ProposerMilliTimestamp.field_index(),
+        radix_common::prelude::scrypto_encode(&ConsensusManagerProposerMilliTimestampFieldPayload::from_latest_version(milli)).unwrap(),
+    );
+    api.fields.insert(
+        ConsensusManagerField::ProposerMinuteTimestamp.field_index(),
+        radix_common::prelude::scrypto_encode(&ConsensusManagerProposerMinuteTimestampFieldPayload::from_latest_version(minute)).unwrap(),
+    );
+    let r = verif_check_non_decreasing_and_update_timestamps(a[2].parse().unwrap(), &mut api);
+    let m1: ConsensusManagerProposerMilliTimestampFieldPayload = radix_common::prelude::scrypto_decode(
+        &api.fields[&ConsensusManagerField::ProposerMilliTimestamp.field_index()],
+    )
+    .unwrap();
+    let m2: ConsensusManagerProposerMinuteTimestampFieldPayload = radix_common::prelude::scrypto_decode(
+        &api.fields[&ConsensusManagerField::ProposerMinuteTimestamp.field_index()],
+    )
+    .unwrap();
+    format!(
+        "{} {} {} {}",
+        if r.is_ok() { "ok" } else { "err" },
+        m1.fully_update_and_into_latest_version().epoch_milli,
+        m2.fully_update_and_into_latest_version().epoch_minute,
+        api.field_writes.len()
+    )
+}
+
 fn run(a: &[&str]) -> String {
     match a[0] {
+        "cm_time" => cm_time(&a[1..]),
         "ac_run" => ac_run(&a[1..]),
         "tsv" => tsv(&a[1..]),
         "limits_io" | "limits_key" => limits_ops(a),
